@@ -172,6 +172,7 @@ def replay_readme(cex, d):
     fx = dict(d.get('fixed') or {})
     fx.update(cex)
     ob = d.get('ob') or d.get('obligation')
+    rp.real()
     from darr.array import readcodetxt as rct_a
     from darr.raggedarray import readcodetxt as rct_r
     probs = []
